@@ -1,10 +1,14 @@
 import Mkdb.Proofs.Console
 import Mkdb.Proofs.ConsoleEditBytes
+import Mkdb.Proofs.ConsoleHist2
+import Mkdb.Proofs.ConsoleHist3
+import Mkdb.Proofs.ConsoleHist4
 /-!
 # C20 — the console submits exactly the statements that were typed
 
 Property theorems only.  Helper lemmas and the session invariant are in `Mkdb/Proofs/Console.lean`,
-those about the editing keys and the byte level in `Mkdb/Proofs/ConsoleEdit.lean`, `ConsoleEditBytes.lean`.
+those about the editing keys and the byte level in `Mkdb/Proofs/ConsoleEdit.lean`, `ConsoleEditBytes.lean`,
+those about nested corrections, ^U, the history and the movement keys in `Mkdb/Proofs/ConsoleHist1.lean` - `ConsoleHist4.lean`.
 -/
 namespace Mkdb.Console
 
@@ -213,5 +217,233 @@ example : session (encodeKeys (codes "SELECT 'é;';" ++ [13])) = [[codes "SELECT
 example : session (codes "SELECT 12" ++ [127] ++ codes ";" ++ [13]) = [[codes "SELECT 1;"]] := by decide
 example : session (codes "ELECT 1;" ++ [1] ++ codes "S" ++ [13]) = [[codes "SELECT 1;"]] := by decide
 example : session (codes "SELECT 1;" ++ [13, 16, 13]) = [[codes "SELECT 1;"], [codes "SELECT 1;"]] := by decide
+
+/-! ## Nested corrections, ^U -/
+
+/-- A block of `n` printable keys followed by `n` backspaces (`w1 w2 ⌫ ⌫`) is a balanced sequence
+(`Noise`: a backspace erases the last printable key of the sequence not erased yet, every key of the
+sequence is erased); so are balanced sequences nested in or following each other. -/
+theorem C20_correction_block (ws : List Nat) (h : ∀ w ∈ ws, isPrintable w = true) :
+    Noise (ws ++ List.replicate ws.length keyBackspace) :=
+  noise_block ws h
+
+example : Noise [88, 89, 127, 127] := C20_correction_block [88, 89] (by decide)
+
+/-- **Nested corrections change nothing.**  A key sequence with balanced sequences of printable keys and
+backspaces put in anywhere, any number of times (`CorrectedN noisy clean`; backspace is what both DEL and
+^H decode to, `C20_backspace_bytes`), hands over exactly what the clean sequence of printable keys and
+Enters does, and ends in the same state (line, cursor, history, all of it) - from every state outside
+paste mode whose cursor is inside the line.  Excluded: paste mode (there backspace is a character), a
+cursor outside the line (never reached: `C20_cursor_inside_line`). -/
+theorem C20_nested_corrections_same_run (noisy clean : List Nat) (hc : CorrectedN noisy clean) (t : Term)
+    (hpa : t.pasteActive = false) (hpos : t.pos ≤ t.line.length)
+    (hvalid : ∀ k ∈ clean, k = 13 ∨ (isPrintable k = true ∧ k ≠ 13)) :
+    run t noisy = run t clean ∧ final t noisy = final t clean :=
+  run_correctedN hc t hpa hpos hvalid
+
+/-- `US` `XY` ⌫ ⌫ `E d` `q` `r` ⌫ `s` ⌫ ⌫ `;` Enter is `USE d;` Enter: a block of two, and a nested one -/
+example : CorrectedN ([85, 83, 88, 89, 127, 127, 69, 32, 100, 113, 114, 127, 115, 127, 127, 59, 13])
+    (codes "USE d;" ++ [13]) :=
+  .key _ (.key _ (.noise (m := [88, 89, 127, 127]) (C20_correction_block [88, 89] (by decide))
+    (.key _ (.key _ (.key _ (.noise (m := [113, 114, 127, 115, 127, 127])
+      (.wrap 113 (by decide) (m := [114, 127, 115, 127])
+        (.append (.wrap 114 (by decide) .nil) (.wrap 115 (by decide) .nil)))
+      (.key _ (.key _ .nil))))))))
+
+/-- **C20.typed_with_nested_corrections**: a list of well-formed statements typed with any number of
+corrections - blocks of wrong printable keys erased again by as many backspaces, nested and repeated
+anywhere (`CorrectedN noisy keys`) - is handed over as the clean list: exactly the statements, once each,
+in order.  Hypotheses as in `C20_submit`, on the clean keys. -/
+theorem C20_typed_with_nested_corrections (noisy keys : List Nat) (w0 : List Nat)
+    (items : List (List Nat × List Nat))
+    (hc : CorrectedN noisy keys)
+    (hvalid : ∀ k ∈ keys, k = 13 ∨ (isPrintable k = true ∧ k ≠ 13))
+    (hlast : keys.getLast? = some 13)
+    (hw0 : Blank w0) (hitems : ∀ p ∈ items, WFStmt p.1 ∧ Blank p.2)
+    (htext : keys.map (fun k => if k = 13 then 32 else k) =
+      w0 ++ items.flatMap (fun p => p.1 ++ p.2)) :
+    (run {} noisy).flatten = items.map (·.1) := by
+  rw [(run_correctedN hc {} rfl (Nat.le_refl _) hvalid).1]
+  exact submit_exact keys w0 items hvalid hlast hw0 hitems htext
+
+example : run {} [85, 83, 88, 89, 127, 127, 69, 32, 100, 113, 114, 127, 115, 127, 127, 59, 13] =
+    [[codes "USE d;"]] := by decide
+
+/-- **^U after typing**: outside paste mode, whatever printable keys were typed just before ^U are gone
+with it - the state after them and ^U is the state after ^U alone (everything before the cursor erased);
+nothing is handed over.  With the cursor at the beginning of the line - in particular on an empty line,
+as after a submission - the state is exactly the one before the keys. -/
+theorem C20_ctrlU_wipes_typed (ws : List Nat) (t : Term) (hpa : t.pasteActive = false)
+    (hpos : t.pos ≤ t.line.length) (h : ∀ w ∈ ws, isPrintable w = true) :
+    run t (ws ++ [keyCtrlU]) = [] ∧
+    final t (ws ++ [keyCtrlU]) = { t with line := t.line.drop t.pos, pos := 0 } ∧
+    (t.pos = 0 → final t (ws ++ [keyCtrlU]) = t) :=
+  ⟨(typed_then_ctrlU ws t hpa hpos h).1, (typed_then_ctrlU ws t hpa hpos h).2,
+    fun h0 => (typed_then_ctrlU_id ws t hpa h0 h).2⟩
+
+example : final {} (codes "SELEKT 1;" ++ [keyCtrlU]) = {} :=
+  (C20_ctrlU_wipes_typed (codes "SELEKT 1;") {} rfl (Nat.le_refl _) (by decide)).2.2 rfl
+
+/-- **A mistyped line wiped by ^U** is as if never typed: after printable keys and Enters that leave the
+line empty (`pre`; e.g. nothing, or whole statements ending with a submitting Enter), printable keys
+followed by ^U change no submission of what is typed afterwards. -/
+theorem C20_wiped_line_same_run (pre junk keys : List Nat)
+    (hpre : ∀ k ∈ pre, k = 13 ∨ (isPrintable k = true ∧ k ≠ 13))
+    (hempty : (final {} pre).line = []) (hjunk : ∀ w ∈ junk, isPrintable w = true) :
+    run {} (pre ++ junk ++ keyCtrlU :: keys) = run {} (pre ++ keys) :=
+  run_wiped pre junk keys hpre hempty hjunk
+
+/-- **C20.wiped_line_retyped**: statements typed (`pre`, leaving an empty line), then a whole mistyped
+line wiped by ^U, then typed again correctly: exactly the well-formed statements of `pre ++ keys` are
+handed over, once each, in order - nothing of the wiped line.  Hypotheses as in `C20_submit` on
+`pre ++ keys`. -/
+theorem C20_wiped_line_retyped (pre junk keys : List Nat) (w0 : List Nat)
+    (items : List (List Nat × List Nat))
+    (hempty : (final {} pre).line = []) (hjunk : ∀ w ∈ junk, isPrintable w = true)
+    (hvalid : ∀ k ∈ pre ++ keys, k = 13 ∨ (isPrintable k = true ∧ k ≠ 13))
+    (hlast : (pre ++ keys).getLast? = some 13)
+    (hw0 : Blank w0) (hitems : ∀ p ∈ items, WFStmt p.1 ∧ Blank p.2)
+    (htext : (pre ++ keys).map (fun k => if k = 13 then 32 else k) =
+      w0 ++ items.flatMap (fun p => p.1 ++ p.2)) :
+    (run {} (pre ++ junk ++ keyCtrlU :: keys)).flatten = items.map (·.1) := by
+  rw [run_wiped pre junk keys (fun k hk => hvalid k (List.mem_append.mpr (Or.inl hk))) hempty hjunk]
+  exact submit_exact _ w0 items hvalid hlast hw0 hitems htext
+
+/-- `USE a;` Enter `USE bb;` ^U `USE b;` Enter -/
+example : run {} ((codes "USE a;" ++ [13]) ++ codes "USE bb;" ++ keyCtrlU :: (codes "USE b;" ++ [13])) =
+    run {} ((codes "USE a;" ++ [13]) ++ (codes "USE b;" ++ [13])) :=
+  C20_wiped_line_same_run _ _ _ (by decide) (by decide) (by decide)
+
+example : run {} ((codes "USE a;" ++ [13]) ++ codes "USE bb;" ++ keyCtrlU :: (codes "USE b;" ++ [13])) =
+    [[codes "USE a;"], [codes "USE b;"]] := by decide
+
+/-! ## The history -/
+
+/-- Every statement the splitter returns - so every statement the console hands over, whatever was
+typed, pasted or edited (`C20_submission_is_split_of_buffer`) - is well formed: it ends with its only
+top-level ';', its quotes are balanced, it begins with no blank; and alone in the buffer it splits into
+itself with nothing left.  No hypotheses. -/
+theorem C20_split_outputs_wellformed (l : List Nat) :
+    ∀ s ∈ (splitStatements l).1, WFStmt s ∧ splitStatements s = ([s], []) :=
+  fun s hs => ⟨split_outputs_wf l s hs, split_single (split_outputs_wf l s hs)⟩
+
+/-- **What the history holds**: after printable keys and Enters that are Unicode scalar values
+(`TypedKey`; a value that is none would be stored as U+FFFD), the ring holds the statements handed over,
+one entry per statement, the most recent first, at most 100; the editor is not inside the history
+(`historyIndex = -1`). -/
+theorem C20_history_holds_submissions (keys : List Nat) (hv : ∀ k ∈ keys, TypedKey k) :
+    (final {} keys).history = (run {} keys).flatten.reverse.take 100 ∧ (final {} keys).historyIndex = -1 := by
+  obtain ⟨g, hh, _⟩ := good_run keys {} good_init hv
+  exact ⟨by rw [hh]; simp, g.idx⟩
+
+example : (final {} (codes "USE a; USE b;" ++ [13])).history = [codes "USE b;", codes "USE a;"] := by
+  rw [(C20_history_holds_submissions _ (by decide)).1]; decide
+
+/-- **C20.recall_resubmits_exactly**: after any sequence of typed keys (printable keys and Enters,
+Unicode scalar values) that handed over the statements `s_1 … s_n` in all, pressing Up `k` times
+(`1 ≤ k ≤ n`, `k ≤ 100`, the size of the ring) and Enter hands over exactly `[s_(n-k+1)]` - the `k`-th most
+recent statement, text intact, once, alone - and nothing else; whatever was in the line before the first Up
+(an unfinished input is kept aside as `historyPending`) is not handed over.  Excluded: key values that are
+no Unicode scalar values (possible only in paste mode; the entry then holds U+FFFD), `k` beyond the
+entries there are (`Up` then stays at the oldest entry). -/
+theorem C20_recall_resubmits_exactly (keys : List Nat) (hv : ∀ k ∈ keys, TypedKey k) (k : Nat)
+    (hk1 : 1 ≤ k) (hkn : k ≤ (run {} keys).flatten.length) (hk100 : k ≤ 100) :
+    run {} (keys ++ List.replicate k keyUp ++ [keyEnter]) =
+      run {} keys ++ [[(run {} keys).flatten[(run {} keys).flatten.length - k]]] :=
+  recall keys hv k hk1 hkn hk100
+
+/-- `USE a; USE b;` Enter `USE c;` Enter, then Up Up Up Enter: `USE a;` again; with an unfinished `SEL`
+in the line before the Ups: the same -/
+example : run {} (codes "USE a; USE b;" ++ [13] ++ codes "USE c;" ++ [13] ++ List.replicate 3 keyUp ++ [keyEnter]) =
+    run {} (codes "USE a; USE b;" ++ [13] ++ codes "USE c;" ++ [13]) ++ [[codes "USE a;"]] :=
+  C20_recall_resubmits_exactly _ (by decide) 3 (by decide) (by decide) (by decide)
+
+example : run {} (codes "USE a; USE b;" ++ [13] ++ codes "USE c;" ++ [13] ++ codes "SEL" ++ [keyUp, keyUp, 13]) =
+    [[codes "USE a;", codes "USE b;"], [codes "USE c;"], [codes "USE b;"]] := by decide
+
+/-! ## The movement keys -/
+
+/-- **Movement changes no text**: outside paste mode the keys Left, Right, Home, End, Alt-Left, Alt-Right
+and ^L (`isMove`) hand over nothing and change nothing but the cursor position, which stays inside the
+line when it was. -/
+theorem C20_movement_keeps_text (t : Term) (hpa : t.pasteActive = false) (k : Nat) (hk : isMove k = true) :
+    ∃ p, step t k = ({ t with pos := p }, none) ∧ (t.pos ≤ t.line.length → p ≤ t.line.length) := by
+  obtain ⟨p, hs⟩ := step_move t hpa hk
+  refine ⟨p, hs, fun h => ?_⟩
+  have := posOK_step t h k
+  rw [hs] at this
+  exact this
+
+example : ∃ p, step { line := codes "SELECT 1", pos := 8 } keyAltLeft = ({ line := codes "SELECT 1", pos := p }, none) ∧
+    (8 ≤ (codes "SELECT 1").length → p ≤ (codes "SELECT 1").length) :=
+  C20_movement_keeps_text { line := codes "SELECT 1", pos := 8 } rfl keyAltLeft (by decide)
+
+example : (step { line := codes "SELECT 1", pos := 8 } keyAltLeft).1.pos = 7 := by decide
+
+/-- **Edits change nothing**: a key sequence with, put in anywhere and any number of times, corrections
+(balanced sequences of printable keys and backspaces) and blocks of movement keys each closed by End
+(`Edited noisy clean`; ^E decodes to End) hands over exactly what the clean sequence of printable keys and
+Enters does - from every state outside paste mode with the cursor at the end of the line.  Excluded: a
+movement block not closed by End before the next key (the key then goes in where the cursor is: that is
+editing, not noise), paste mode. -/
+theorem C20_edits_same_run (noisy clean : List Nat) (hc : Edited noisy clean) (t : Term)
+    (hpa : t.pasteActive = false) (hend : t.pos = t.line.length)
+    (hvalid : ∀ k ∈ clean, k = 13 ∨ (isPrintable k = true ∧ k ≠ 13)) :
+    run t noisy = run t clean :=
+  run_edited hc t hpa hend hvalid
+
+/-- **C20.typed_with_edits**: a list of well-formed statements typed with corrections and with cursor
+movements each closed by End before typing goes on is handed over as the clean list: exactly the
+statements, once each, in order.  Hypotheses as in `C20_submit`, on the clean keys. -/
+theorem C20_typed_with_edits (noisy keys : List Nat) (w0 : List Nat)
+    (items : List (List Nat × List Nat))
+    (hc : Edited noisy keys)
+    (hvalid : ∀ k ∈ keys, k = 13 ∨ (isPrintable k = true ∧ k ≠ 13))
+    (hlast : keys.getLast? = some 13)
+    (hw0 : Blank w0) (hitems : ∀ p ∈ items, WFStmt p.1 ∧ Blank p.2)
+    (htext : keys.map (fun k => if k = 13 then 32 else k) =
+      w0 ++ items.flatMap (fun p => p.1 ++ p.2)) :
+    (run {} noisy).flatten = items.map (·.1) := by
+  rw [run_edited hc {} rfl rfl hvalid]
+  exact submit_exact keys w0 items hvalid hlast hw0 hitems htext
+
+/-- `USE` Home Alt-Right End ` d` `x` ⌫ Left Left End `;` Enter Left is `USE d;` Enter -/
+example : Edited ([85, 83, 69, keyHome, keyAltRight, keyEnd, 32, 100, 120, 127, keyLeft, keyLeft, keyEnd, 59, 13,
+    keyLeft]) (codes "USE d;" ++ [13]) :=
+  .key _ (.key _ (.key _ (.move (ms := [keyHome, keyAltRight]) (by decide)
+    (.key _ (.key _ (.noise (m := [120, 127]) (.wrap 120 (by decide) .nil)
+      (.move (ms := [keyLeft, keyLeft]) (by decide)
+        (.key _ (.key _ (.tail (ms := [keyLeft]) (by decide)))))))))))
+
+example : run {} [85, 83, 69, keyHome, keyAltRight, keyEnd, 32, 100, 120, 127, keyLeft, keyLeft, keyEnd, 59, 13,
+    keyLeft] = [[codes "USE d;"]] := by decide
+
+/-! ## The editing keys as bytes -/
+
+/-- **Editing keys as bytes**: outside paste mode the bytes a terminal sends for an editing key (`keyBytes`:
+DEL, ^U, ^L, ^W, ^K, `ESC [ A/B/C/D/H/F` for the arrows and Home/End, `ESC [ 1 ; 3 D/C` for Alt-Left/Right),
+whatever bytes follow, are decoded by `bytesToKey` to exactly that key, and the bytes that follow are left. -/
+theorem C20_edit_bytes_decode (k : Nat) (hk : isEditKey k = true) (rest : List Nat) :
+    bytesToKey (keyBytes k ++ rest) false = some (k, rest) :=
+  editKey_bytes hk rest
+
+example : bytesToKey ([27, 91, 65] ++ [13]) false = some (keyUp, [13]) := C20_edit_bytes_decode keyUp (by decide) [13]
+
+/-- **Typed and edited as bytes, the session**: for a complete byte stream that is the bytes of typed keys
+(printable keys and Enters, Unicode scalar values) and editing keys (`EditKey`: backspace, ^U, ^W, ^K, ^L,
+arrows, Home/End, Alt-arrows), the loop of `ReadLine` calls hands over exactly what `run` says for the
+keys - so the theorems about corrections, ^U, recall from the history and cursor movement speak about what
+the console reads from its input.  Excluded: ^C, ^D, ESC alone, bracketed paste (see `C20_paste_*`). -/
+theorem C20_bytes_session_edited (keys : List Nat) (hv : ∀ k ∈ keys, EditKey k) :
+    session (keysBytes keys) = run {} keys :=
+  session_edit keys hv
+
+/-- `USX` DEL `E d;` Enter `ESC [ A` Enter: `USE d;` twice -/
+example : session (codes "USX" ++ [127] ++ codes "E d;" ++ [13, 27, 91, 65, 13]) =
+    run {} (codes "USX" ++ [keyBackspace] ++ codes "E d;" ++ [13, keyUp, 13]) :=
+  C20_bytes_session_edited (codes "USX" ++ [keyBackspace] ++ codes "E d;" ++ [13, keyUp, 13]) (by decide)
+
+example : session (codes "USX" ++ [127] ++ codes "E d;" ++ [13, 27, 91, 65, 13]) =
+    [[codes "USE d;"], [codes "USE d;"]] := by decide
 
 end Mkdb.Console
